@@ -161,6 +161,7 @@ def run(repo: Repo, rep: Report, tier: str) -> None:
         rep.undecide("R15.3", "no path installs both names")
 
     _oneshot(repo, rep)
+    _read_before_install(repo, rep)
     _shortcut(repo, rep)
     siblings.check_nested_builders(repo, rep, "R15.6")
     _aliases(repo, rep)
@@ -170,6 +171,58 @@ def run(repo: Repo, rep: Report, tier: str) -> None:
     from ..core.report import Only
     from . import c19 as _c19
     _c19._declared_hook(repo, Only(rep, {"R19.4"}))
+
+def _read_before_install(repo: Repo, rep: Report) -> None:
+    """R15.9: the codec (non-nailed) branch of pack_dataclass / unpack_dataclass binds the nested class's compiled
+    method *object* at generation time (`getattr(spec.attrs, method_name)`).  That read is legitimate only when the
+    method is already installed (the holder defines it, or a nested builder has just compiled it).  On the path where
+    the nested compilation is skipped because the type is the class being compiled (self-reference) the method is
+    installed only when the current compilation ends: the mixin branch looks it up at call time, the codec branch must
+    not read it earlier either, or BasicEncoder(Node) fails where Node-with-mixin works."""
+    import ast as _ast
+
+    from ..core.pe import Path
+    from ..core.scen import make_eval, symbolic_spec
+    from ..core.srcmodel import M_PACK, M_UNPACK
+    from ..core.values import Const, Func, Sym, V, show
+
+    dummy = _ast.parse("f(x)").body[0].value
+    for mod, fn, meth in ((M_PACK, "pack_dataclass", "add_pack_method"), (M_UNPACK, "unpack_dataclass", "add_unpack_method")):
+        ev = make_eval(repo, inline_depth=2, assume=[(re.compile(r"is_dataclass\(spec\.origin_type\)"), True), (re.compile(r"B\.is_nailed"), False),
+                                                     (re.compile(r"get_discriminator|\.discriminator"), False)])
+        def compiled(pe, recv, a, kw, q, e, meth=meth):
+            q.events.append(("nested_compile", meth))
+            return [(Const(None), q)]
+        ev.models[f"method:{meth}"] = compiled
+        p = Path()
+        spec = symbolic_spec(ev, p)
+        fi = repo.func(mod, fn)
+        res = ev.call_func(Func(fi), [spec], {}, p, dummy, force=True)
+        n = 0
+        for v, q in res:
+            if q.ctl == "raise":
+                continue
+            reads = [e for e in q.events if e and e[0] == "ensure_object" and isinstance(e[1], V) and show(e[1]).startswith("getattr(spec.attrs")]
+            for w in q.worlds():
+                at = Path._view(w, "A|")
+                idn = Path._view(w, "I|")
+                defines = next((b for k, b in at.items() if "get_class_that_defines_method(" in k and "== spec.attrs" in k), None)
+                guarded = next((b for k, b in at.items() if "hasattr(spec.attrs" in k), None)
+                selfref = idn.get("spec.origin_type") == "B.cls"
+                compiled_now = any(e and e[0] == "nested_compile" for e in q.events)
+                label = f"{fn}[holder defines method={defines}, self-reference={selfref}, nested compile={compiled_now}, hasattr guard={guarded}]"
+                n += 1
+                if not reads:
+                    rep.ok("R15.9", f"{label}: the method is looked up at call time ({show(v)[:60]})", None)
+                elif defines is True or compiled_now or guarded is True:
+                    rep.ok("R15.9", f"{label}: the method object is read after it was installed", None)
+                else:
+                    rep.violation("R15.9", fi.key, f"{fn}: generation-time read of `{show(reads[0][1])[:60]}` on the self-reference path",
+                                  "a self-referencing plain dataclass cannot be used through codecs (AttributeError while the encoder is built) although the same class works "
+                                  "under a mixin holder: the entry points disagree", loc=fi.loc)
+        if n < 3:
+            rep.undecide("R15.9", f"{fn}: only {n} codec-branch outcomes")
+
 
 def _oneshot(repo: Repo, rep: Report) -> None:
     n = 0
